@@ -2,6 +2,7 @@ import StepModel.P21.ReaderLemmas13
 import StepModel.P21.ReaderLemmas15
 import StepModel.P21.ReaderLemmas16
 import StepModel.P21.ReaderLemmas19
+import StepModel.P21.ReaderLemmas20
 import StepModel.Generated.P21RWGen
 /-! # C03 — the reader never reports a violating file as clean: property theorems
 
@@ -1649,6 +1650,19 @@ theorem C03_duplicate_id_record_skipped {F} (ops : FloatOps F) (lex : LexCfg) (c
   ⟨fun m i0 h l rest => createInstance_dup cfg hskip d m r hlex hscan i0 h l rest,
    fun st i0 h hn l rest hs => readInstance_dup ops lex cfg d strict hskip st r hlex hscan l rest hs i0 h hn⟩
 
+/-- **missing `=`, record level** (re-export of `createInstance_noeq` / `readInstance_noeq`): a record `#id NAME(…);` - the
+    `=` left out, any layout between the id and the keyword, any parameters `SkipInstance` gets over - creates nothing in
+    pass 1 (`ReadData1` counts it not created - `C03_not_created_fails_file` then fails the file) and, no instance with its
+    id being in the manager, is skipped by pass 2 up to its `;`; neither pass touches the record behind it. -/
+theorem C03_missing_equals_record_skipped {F} (ops : FloatOps F) (lex : LexCfg) (cfg : RWCfg) (d : Dict) (strict : Bool)
+    (hskip : cfg.skipInstanceSkipsComments = true) (r : Rec F) (hlex : r.Lex) (hscan : ∀ q ∈ r.ps, ParamScan q) :
+    (∀ (m : Mgr F), m.find? r.id = none → ∀ l rest,
+        ∃ l', createInstance cfg d m (G l (r.textNoEq rest) false) = .ok (none, G l' rest false)) ∧
+    (∀ (st : P2 F), st.mgr.find? r.id = none → ∀ l rest, st.s = G l (r.textNoEq rest) false →
+        ∃ l', readInstance ops lex cfg d strict st = .ok { s := G l' rest false }) :=
+  ⟨fun m h l rest => createInstance_noeq cfg hskip d m r hlex hscan h l rest,
+   fun st h l rest hs => readInstance_noeq ops lex cfg d strict hskip st r hlex hscan l rest hs h⟩
+
 /-- **a violation inside a typed select value**: `KEYWORD blanks ( blanks value )` for a select attribute where the keyword
     names a non-entity member and the value between the parentheses is read with WARNING (`LeafRdS`, e.g.
     `LeafRdS.integer_junk`: `CNT_T('a')`): the attribute reader returns WARNING with the member chosen and the value unset,
@@ -2003,6 +2017,11 @@ def strayRun (data : String) : Int × List Sev × List (MVal Nat) :=
   match readDataSection dblOps Generated.rwLexCfg Generated.rwCfg exDict false false (stringToBytes data) with
   | .ok r => (exitStatus r.sev, r.reported, r.mgr.insts.flatMap (fun i => i.parts.flatMap (·.vals)))
   | .error _ => (-1, [], [])
+
+/-- `#1 A(5);#2=A(6);` - the first record without its `=`: not created, skipped by pass 2, the record behind it read
+    (value 6), exit status 1 -/
+theorem C03_missing_equals_witness :
+    strayRun "#1 A(5);#2=A(6);ENDSEC;END-ISO-10303-21;" = (1, [Sev.null], [.one (.atom (.int 6))]) := by decide
 
 /-- `#1=A(/ 5);` - a slash that starts no comment - reads as `#1=A(5);`: nothing reported, exit status 0 -/
 theorem C03_stray_slash_dropped_witness :
